@@ -31,7 +31,7 @@ class C15(Prop):
     OVERWRITE = (False, True)
     WEIGHTS = {"page": 4, "pages": 2, "links": 3, "batch": 3, "again": 1, "create": 2, "delete": 1, "addprefix": 1,
                "rmprefix": 1, "move": 1, "rule": 2, "unrule": 1, "reopen": 0, "clear": 1}
-    QUICK = (10, 16)
+    QUICK = (40, 16)
     THOROUGH = (120, 32)
     ASSUMPTIONS = ["'same configuration' includes the overwrite flag; the two indexes receive identical argument objects"]
 
